@@ -326,6 +326,18 @@ def systematic():
             out.append("h 1 %s ; %s ; %s" % (fs0, pl, mk_apply(2, ap)))
             if sig in ("ok", "none"):
                 out.append("h 1 %s ; %s ; %s ; %s" % (fs0, mk_apply(2, ap, ob=[(1, "s")], fail=[12]), pl, mk_rollback(rob=[])))
+    # an upgrade that keeps the BYTES of an artifact and changes only its MODE (and one that changes both, side by side):
+    # mode restoration is checked on its own — a restore that skips "unchanged" files, or compares bytes only, shows here
+    fsm = "0:r10.755,1:r11.4755,3:r13.600,4:r14.1777"
+    same = [(0, 10, "0700", "o"), (1, 11, "0644", "n"), (3, 13, "e", "v"), (4, 14, "0755", "n")]     # same bytes, other modes
+    mixed = [(0, 10, "0700", "o"), (1, 21, "0644", "n"), (3, 13, "0600", "v"), (4, 24, "1777", "n")]  # 3: nothing changes at all
+    for arts_m in (same, mixed):
+        for kw in (dict(), dict(ha="failed"), dict(fail=[8]), dict(fail=[3]), dict(fail=[8, 12]), dict(crash=30), dict(crash=35),
+                   dict(ob=[(3, "s")], crash=51), dict(ob=[(1, "s")], fail=[12]), dict(ob=[(4, "o")])):
+            out.append("h 1 %s ; %s ; clear ; %s ; %s" % (fsm, mk_apply(2, arts_m, **kw), mk_rollback(), mk_rollback()))
+            out.append("h 1 %s ; %s ; clear ; %s ; %s" % (fsm, mk_apply(2, arts_m, **kw), mk_apply(2, arts_m, force=1), mk_rollback()))
+        out.append("h 1 %s ; %s ; %s ; %s" % (fsm, mk_apply(2, arts_m), mk_rollback(rob=[(1, "s")]), mk_rollback()))
+        out.append("h 1 %s ; %s ; %s ; clear ; %s" % (fsm, mk_apply(2, arts_m), mk_rollback(rob=[(0, "s")], crash=44), mk_rollback()))
     # never-upgraded box (no current-manifest.yaml: version discovered from the binary = id 63)
     out.append("h 63 %s ; %s ; %s ; %s" % (fs0, mk_apply(2, a2f, prev="63o"), mk_rollback(), mk_apply(2, a2f, prev="63o", ha="failed")))
     out.append("h 63 %s ; %s ; %s ; %s" % (fs0, mk_apply(2, a2f, fail=[36]), mk_rollback(), mk_apply(2, a2f, force=1)))
@@ -532,7 +544,7 @@ def shrink(case):
 
 
 def distribution(cases, impl):
-    d = {"stale_staging_files": 0, "histories": 0, "names": 0, "names_accepted": 0, "ops": {}, "results": {}, "end_phase": {}, "monitor": {},
+    d = {"same_bytes_other_mode_artifacts": 0, "stale_staging_files": 0, "histories": 0, "names": 0, "names_accepted": 0, "ops": {}, "results": {}, "end_phase": {}, "monitor": {},
          "tamper": {}, "sig": {}, "fail_labels_requested": {}, "crash_labels_requested": {}, "crash_labels_fired": {},
          "with_obstacle": 0, "force": 0, "phases_seen": {}}
 
@@ -557,6 +569,13 @@ def distribution(cases, impl):
                 kv = dict(x.split("=", 1) for x in t[1:])
                 if t[0] == "apply":
                     inc(d["tamper"], kv["tam"])
+                    init = dict(x.split(":", 1) for x in c.split()[2].split(",")) if c.split()[2] != "-" else {}
+                    for a in kv["arts"].split(","):
+                        pa, ca, ma, _ = a.split(":")
+                        cur0 = init.get(pa, "")
+                        if cur0.startswith("r") and cur0[1:].split(".")[0] == ca and ma not in ("b",) and \
+                                cur0.split(".")[1].lstrip("0") != (ma if ma != "e" else "644").lstrip("0"):
+                            d["same_bytes_other_mode_artifacts"] += 1
                     inc(d["sig"], kv["sig"])
                     d["force"] += kv["force"] == "1"
                     d["with_obstacle"] += kv["ob"] != "-"
